@@ -5,7 +5,9 @@
    mode "copy": one message dump per line (the ORIGINAL message as a synchronous sink sees it; '-' = null, h<hex> = bytes):
        type|text|file|line|function|category|time|steady|tid|formatted|attrs(khex=vhex,...)|seq
      output: the observation of the model's copy (copy_msg_with src_copy_cfg, ambient = garbage) in the same format,
-     null pointers rendered as the empty string "h" (obs identifies null and ""). *)
+     null pointers rendered as the empty string "h" (obs identifies null and "").
+   mode "tsrc": any line -> "process=<message|clock> boot=<message|clock>": the clock the translated TimeToken reads for
+     %{time process} / %{time boot} (message = lmsg.steadyTime(), the case of theorem C03_rendered_time_same_as_synchronous). *)
 open Async_model
 let tbl = ref [| O |]
 let nat_of_int n =
@@ -34,6 +36,10 @@ let () =
   try while true do
     let line = input_line stdin in
     if mode = "complete" then print_endline (if src_copy_complete then "1" else "0")
+    else if mode = "tsrc" then begin
+      let (p, b) = src_time_sources in
+      Printf.printf "process=%s boot=%s\n" (if p then "message" else "clock") (if b then "message" else "clock")
+    end
     else if mode = "copy" then begin
       match String.split_on_char '|' line with
       | [ty; text; file; ln; fn; cat; time; steady; tid; fmt; attrs; _seq] ->
